@@ -220,6 +220,9 @@ def namespace(header):
 
 
 # ---- hand-written variants of a value (same value, other tokens / layout)
+DUPKEYS = [0.0]      # probability that a hand-written dict display repeats a key (the last entry wins); set by the caller
+
+
 def render_noisy(rng: random.Random, e, p=0.35, parens=False, comments=True, depth=0):
     txt = _render_noisy(rng, e, p, parens, comments, depth)
     if parens and depth > 0 and rng.random() < 0.25:
@@ -255,6 +258,11 @@ def _render_noisy(rng: random.Random, e, p=0.35, parens=False, comments=True, de
             return "set()"
         if t == "dict":
             parts = [f"{render_noisy(rng, k, 0.0)}{ws()}:{ws()}{render_noisy(rng, v, p, parens, comments, depth + 1)}" for k, v in items]
+            if parts and DUPKEYS[0] and rng.random() < DUPKEYS[0]:
+                # a shadowed entry: the same key once more further left with another value (legal Python, the last entry wins)
+                j = rng.randrange(len(parts))
+                shadow = rng.choice(["0", "'shadowed'", "[]"])
+                parts.insert(rng.randint(0, j), render_noisy(rng, items[j][0], 0.0) + ": " + shadow)
         elif t == "set":
             parts = [render_noisy(rng, x, 0.0) for x in items]
         else:
